@@ -174,11 +174,11 @@ pub(crate) fn map_of<const N: usize>(w: &Witness<N>) -> Beatmap {
 const SKIP_NTH_BEYOND: u8 = 1;
 
 fn check_counters(a: &OsuDifficultyAttributes, m: &Model, k: usize) {
-    assert!(a.n_circles == m.circles[k], "C02 osu: n_circles counts the circles of the prefix");
-    assert!(a.n_sliders == m.sliders[k], "C02 osu: n_sliders counts the sliders of the prefix");
-    assert!(a.n_spinners == m.spinners[k], "C02 osu: n_spinners counts the spinners of the prefix");
-    assert!(a.n_large_ticks == m.ticks[k], "C02 osu: n_large_ticks counts ticks and repeats of the prefix");
-    assert!(a.max_combo == m.combo[k], "C02 osu: max_combo counts objects and nested objects of the prefix");
+    assert!(a.n_circles == m.circles[k], "C02,C15 osu: n_circles counts the circles of the prefix");
+    assert!(a.n_sliders == m.sliders[k], "C02,C15 osu: n_sliders counts the sliders of the prefix");
+    assert!(a.n_spinners == m.spinners[k], "C02,C15 osu: n_spinners counts the spinners of the prefix");
+    assert!(a.n_large_ticks == m.ticks[k], "C02,C15 osu: n_large_ticks counts ticks and repeats of the prefix");
+    assert!(a.max_combo == m.combo[k], "C02,C15 osu: max_combo counts objects and nested objects of the prefix");
     assert!((a.n_circles + a.n_sliders + a.n_spinners) as usize == k, "C14 osu: circles + sliders + spinners == objects passed");
 }
 
@@ -209,17 +209,17 @@ fn check_step<const N: usize>(g: &mut OsuGradualDifficulty, w: &Witness<N>, m: &
             let expect = (k - 1) - first;
             unsafe {
                 assert!(LEN_AIM - a0 == 2 * expect && LEN_SPEED - s0 == expect && LEN_FL - f0 == expect,
-                    "C02 osu: every skill processes each difficulty object of the step exactly once");
+                    "C02,C15 osu: every skill processes each difficulty object of the step exactly once");
                 let mut j = 0;
                 while j < expect {
-                    assert!(LOG_AIM[a0 + 2 * j] == first + j && LOG_AIM[a0 + 2 * j + 1] == first + j, "C02 osu: aim skills process objects in order");
-                    assert!(LOG_SPEED[s0 + j] == first + j && LOG_FL[f0 + j] == first + j, "C02 osu: speed/flashlight process objects in order");
+                    assert!(LOG_AIM[a0 + 2 * j] == first + j && LOG_AIM[a0 + 2 * j + 1] == first + j, "C02,C15 osu: aim skills process objects in order");
+                    assert!(LOG_SPEED[s0 + j] == first + j && LOG_FL[f0 + j] == first + j, "C02,C15 osu: speed/flashlight process objects in order");
                     j += 1;
                 }
             }
         } else if let Some(map) = map {
             let one = Difficulty::new().passed_objects(k as u32).calculate_for_mode::<Osu>(map).unwrap();
-            assert!(one == a, "C02 osu: value equals one-shot passed_objects(i)");
+            assert!(one == a, "C02,C15 osu: value equals one-shot passed_objects(i)");
         }
     } else {
         if !(skip & SKIP_NTH_BEYOND != 0 && remaining > 0) {
@@ -285,6 +285,11 @@ pub(crate) fn literal_state<const N: usize, const M: usize>(w: &Witness<N>, m: &
 fn restrict_to_class<const N: usize>(w: &Witness<N>, class: u8) {
     if class == 1 {
         kani::assume(w.call == 1 && w.p < N && w.n >= N - w.p);
+    }
+    if class == 4 {
+        // nth(n >= 1) strictly inside the map from a non-zero cursor (the cheap slice of N = 3
+        // that the quick tier runs)
+        kani::assume(w.call == 1 && w.p >= 1 && w.n >= 1 && w.n < N - w.p);
     }
 }
 
@@ -372,11 +377,13 @@ s1_proof!(s1_osu_step_n2, 2, 1, 6);
 s1_proof!(s1_osu_step_n3, 3, 2, 7);
 s1_proof!(s1_osu_step_n4, 4, 3, 8);
 s1_proof!(kf_osu_nth_beyond_end, 2, 1, 6, 0, 1, false);
+s1_proof!(s1_osu_nth_inside_n3, 3, 2, 7, SKIP_NTH_BEYOND, 4, false);
 // C11: the same step after the struct has been moved through a Box
 s1_proof!(s1_osu_moved_step_n2, 2, 1, 6, SKIP_NTH_BEYOND, 0, true);
 s1_proof!(s1_osu_moved_step_n3, 3, 2, 7, SKIP_NTH_BEYOND, 0, true);
 
 verif_replay_table!(verif_replay_osu_gradual;
+    s1_osu_nth_inside_n3,
     c03_osu_pgradual_n0, c03_osu_pgradual_n1, c03_osu_pgradual_n2, c03_osu_pgradual_n3,
     kf_osu_nth_beyond_end, s1_osu_moved_step_n2, s1_osu_moved_step_n3,
     s1_osu_step_n0, s1_osu_step_n1, s1_osu_step_n2, s1_osu_step_n3, s1_osu_step_n4,
